@@ -7,7 +7,7 @@ CONSTANTS
   Moves <- MovesMC
   Bound = 6
   Steps = {1, 2, 3}
-  MaxLevel = 7
+  MaxLevel = 6
 CONSTRAINT LevelBound
 INVARIANT Consistent
 CHECK_DEADLOCK FALSE
